@@ -113,7 +113,22 @@ def export_schedules(lat, scratch, max_crash, crash_pcs=mdexec.HOOK_PCS, kinds=(
     for row in rows:
         key = json.dumps([row["cfg"], row["sched"]], sort_keys=True)
         seen[key] = row
-    return list(seen.values()), r
+    return [row for row in seen.values() if addressable(row["cfg"], row["sched"])], r
+
+
+def addressable(cfg, sched):
+    """Can every crash of the schedule be armed through a hook?  (mirrors mdexec.crash_plan)"""
+    case = {"cad": cfg["cad"], "xyz": cfg["xyz"], "ckpt": cfg["ckpt"]}
+    start = 0
+    for pc, i, kind in sched:
+        if mdexec.crash_plan(pc, i, kind, case, start) is None:
+            return False
+        ck = cfg["ckpt"]
+        if ck <= 0:
+            return True  # no resume after this crash
+        top = i + 1 if (pc == "next" and (i + 1) % ck == 0) else i
+        start = (top // ck) * ck
+    return True
 
 
 def case_from_cfg(cfg, engine="basic", system="h2o_h2", molid=(0,), **extra):
@@ -166,7 +181,7 @@ def run_all(jobs, root, nproc=16, stub=True):
         case = dict(case)
         case.setdefault("id", "c%05d" % idx)
         wd = os.path.join(root, "case_%05d" % idx)
-        return mdexec.execute(case, sched, wd, refdirs[ref_key(case)], stub=case.get("stub", stub))
+        return mdexec.execute(case, sched, wd, refdirs[ref_key(case)], stub=case.get("stub", stub), tol=case.get("tol"))
 
     return common.run_forked(jobs, do_case, nproc=nproc, pass_index=True, timeout=1800)
 
